@@ -9,7 +9,7 @@ use crate::util::{guard, par_map, Kv};
 
 pub fn meta(_ctx: &Ctx) -> Meta {
     Meta {
-        rule: "6 base networks (dense ranges; shape-preserving conv / deconv ranges; conv(k2,p1)+pool(k2,s1) composite; max-pool as range entry; flat dense output re-read as 1x3x3 at the range entry; range ending in a layer that is flattened for a following dense layer) x EVERY range a <= b whose output shape equals the input shape of a (start / middle / end) x k in 1..3 (4, 5, 6, 9 for two ranges per network) x all 5 accumulations x input skips on/off (with input skips also under a multiplicative / overwrite SKIP-connection accumulation, which must not matter) x 2 exact integer valuations (one of them with inputs scaled by 2^-20), plus pairs of disjoint ranges; plus loops NEAR A FIXED POINT: 5 ranges of a 3-layer 2->2 linear network whose repeated map is x -> g x + (1-g) (g = 2 repelling, g = 1/2 attracting) started 1 ulp (8 ulp) from the fixed point, k in {8,16,22}, all 5 accumulations - successive iterates differ by a few ulp and all arithmetic is exact. Oracles: reference interpreter y_0=f(x_a), y_t=f(y_{t-1}[+x_a]), out=comb(y_0;y_1..y_k); with overwrite (no input skips) bit-equality with the plain network in which layers a..b are repeated k+1 times with the same weights. Non-trivial = reference output has >= 2 distinct non-zero entries".into(),
+        rule: "6 base networks (dense ranges; shape-preserving conv / deconv ranges; conv(k2,p1)+pool(k2,s1) composite; max-pool as range entry; flat dense output re-read as 1x3x3 at the range entry; range ending in a layer that is flattened for a following dense layer) x EVERY range a <= b whose output shape equals the input shape of a (start / middle / end) x k in 1..3 (4, 5, 6, 9 for two ranges per network) x all 5 accumulations x input skips on/off (with input skips also under a multiplicative / overwrite SKIP-connection accumulation, which must not matter) x 2 exact integer valuations (one of them with inputs scaled by 2^-20), plus pairs of disjoint ranges and pairs of OVERLAPPING ranges (nested or sharing a layer; for the outer loop's iterations both readings - plain layers, or layers with the inner loop - are accepted); plus loops NEAR A FIXED POINT: 5 ranges of a 3-layer 2->2 linear network whose repeated map is x -> g x + (1-g) (g = 2 repelling, g = 1/2 attracting) started 1 ulp (8 ulp) from the fixed point, k in {8,16,22}, all 5 accumulations - successive iterates differ by a few ulp and all arithmetic is exact. Oracles: reference interpreter y_0=f(x_a), y_t=f(y_{t-1}[+x_a]), out=comb(y_0;y_1..y_k); with overwrite (no input skips) bit-equality with the plain network in which layers a..b are repeated k+1 times with the same weights. Non-trivial = reference output has >= 2 distinct non-zero entries".into(),
         bound: "k <= 3, ranges of <= 3 layers, planes 3x3".into(),
         exhaustive: true,
         assumptions: vec!["tolerance 2e-6*max|reference| (mean over 3 operands is not exact); the unrolled-network differential is bit-exact".into()],
@@ -68,6 +68,24 @@ pub fn nets(thorough: bool) -> Vec<Net> {
                                 m.skipacc = sk;
                                 out.push(m);
                             }
+                        }
+                    }
+                }
+            }
+        }
+        // two OVERLAPPING ranges (nested, or chained through a shared layer): the statement describes one loop; for the
+        // outer loop's iterations both readings are accepted (re-apply the plain layers / re-apply them with the inner loop)
+        for &(a1, b1) in &rs {
+            for &(a2, b2) in &rs {
+                if b1 < b2 && a2 <= b1 {
+                    for acc in [Acc::Mean, Acc::Add, Acc::Over] {
+                        for (k1, k2) in [(2usize, 1usize), (1, 2)] {
+                            let mut n = base.clone();
+                            n.loopacc = acc;
+                            n.loopbacks = vec![(b1, a1, k1, false), (b2, a2, k2, false)];
+                            out.push(n.clone());
+                            n.loopbacks.reverse();
+                            out.push(n);
                         }
                     }
                 }
@@ -189,8 +207,34 @@ pub fn check(seed: u64, case: &Kv, rep: &mut Report) {
             return;
         }
         Err(Mismatch::Value(e)) => {
-            rep.violate(format!("C17 accumulated loop output [{}]", cls), format!("{}: {}", net.name(), e), case);
-            return;
+            let overlapping = net.loopbacks.len() == 2 && {
+                let (l1, l2) = (net.loopbacks[0], net.loopbacks[1]);
+                let ((b1, _a1), (b2, a2)) = if l1.0 < l2.0 { ((l1.0, l1.1), (l2.0, l2.1)) } else { ((l2.0, l2.1), (l1.0, l1.1)) };
+                b1 < b2 && a2 <= b1
+            };
+            let mut other_reading = None;
+            if overlapping {
+                // second reading: the outer loop's iterations run the inner loop again
+                let x64: Vec<f64> = x.iter().map(|v| *v as f64).collect();
+                let want = crate::refmodel::net::forward_nested_loops(&net, &shapes, &crate::refmodel::net::to_f64(&params), &x64);
+                let got = build_with(&net, &shapes, &params).and_then(|lib| guard(|| lib.predict(&libnet::tensor(net.input, &x)))).and_then(|t| libnet::flat_dims(&t));
+                if let Ok((_, v)) = got {
+                    let scale = want.iter().fold(1.0f64, |m, w| m.max(w.abs()));
+                    if v.len() == want.len() && (0..v.len()).all(|i| v[i].is_finite() && (v[i] as f64 - want[i]).abs() <= 2e-6 * scale) {
+                        other_reading = Some(v);
+                    }
+                }
+            }
+            match other_reading {
+                Some(v) => {
+                    rep.count("overlapping_loops_matching_the_nested_reading", 1);
+                    v
+                }
+                None => {
+                    rep.violate(format!("C17 accumulated loop output [{}]", cls), format!("{}: {}", net.name(), e), case);
+                    return;
+                }
+            }
         }
     };
     // overwrite, one loop, no input skips: equals the plain unrolled network, bit for bit
